@@ -101,3 +101,11 @@ def run(repo, chk):
            "matching continues from the collection that is current in the caller")
     from .shared import activation_integrity_obligations
     activation_integrity_obligations(repo, chk, "R03.4", "probes on a call path")
+    from .shared import unfresh_local_mutations
+    n_sites, leaks = unfresh_local_mutations(repo, ("interpret.", "overlay."))
+    if n_sites < 5:
+        raise AnalysisError(f"only {n_sites} in-place changes of locals found in interpret.py / overlay.py (confirmed by hand: 7)")
+    chk.ob("R03.2", "interpret+overlay:containers-changed-in-place-are-created-on-the-spot", not leaks, "ptera/interpret.py, ptera/overlay.py",
+           f"every local container that is changed in place in the accumulator / matching code ({n_sites} sites: the record built by build(), the next collection of proceed(), "
+           f"the capture map of fits_selector, the rollback journal) is created where it is filled, never a table obtained from another accumulator or activation "
+           f"(build() hands out the live table of a root accumulator)" + (f": {leaks}" if leaks else ""))
